@@ -30,11 +30,16 @@ type timeMsg struct {
 }
 
 type timeCase struct {
-	StartMs   int64     `json:"start_unix_ms"`
-	Zone      string    `json:"zone"`
-	ViaStream bool      `json:"via_stream"`
-	Debug     bool      `json:"debug"`
-	Msgs      []timeMsg `json:"msgs"`
+	StartMs   int64  `json:"start_unix_ms"`
+	Zone      string `json:"zone"`
+	ViaStream bool   `json:"via_stream"`
+	Debug     bool   `json:"debug"`
+	// Split > 0: the first Split messages go through one HandleMessages call, the rest
+	// through a second HandleMessages call (or through GetMessage) on the SAME handler
+	Split      int       `json:"split,omitempty"`
+	RestFrames bool      `json:"rest_via_getmessage,omitempty"`
+	StartNs    int       `json:"start_extra_ns,omitempty"` // sub-millisecond part of the start time
+	Msgs       []timeMsg `json:"msgs"`
 }
 
 func zoneOf(name string) *time.Location {
@@ -89,7 +94,7 @@ func parseReported(s, prefix string) (time.Time, error) {
 }
 
 func execTime(c *child.Ctx, k timeCase, cj []byte, sigPrefix string) {
-	start := time.UnixMilli(k.StartMs).In(zoneOf(k.Zone))
+	start := time.UnixMilli(k.StartMs).Add(time.Duration(k.StartNs)).In(zoneOf(k.Zone))
 	lvl := slog.LevelInfo
 	if k.Debug {
 		lvl = slog.LevelDebug
@@ -111,7 +116,33 @@ func execTime(c *child.Ctx, k timeCase, cj []byte, sigPrefix string) {
 				panicked = fmt.Sprint(rr)
 			}
 		}()
-		if k.ViaStream {
+		if k.Split > 0 && k.Split < len(frames) {
+			// one handler, the session delivered in two parts
+			h := handler.New(start, lvl)
+			var first []byte
+			for _, f := range frames[:k.Split] {
+				first = append(first, f...)
+			}
+			for _, m := range streamThrough(h, first) {
+				mm := m
+				gots = append(gots, got{msg: &mm})
+			}
+			if k.RestFrames {
+				for _, f := range frames[k.Split:] {
+					m, err := h.GetMessage(f)
+					gots = append(gots, got{m, err})
+				}
+			} else {
+				var rest []byte
+				for _, f := range frames[k.Split:] {
+					rest = append(rest, f...)
+				}
+				for _, m := range streamThrough(h, rest) {
+					mm := m
+					gots = append(gots, got{msg: &mm})
+				}
+			}
+		} else if k.ViaStream {
 			var all []byte
 			for _, f := range frames {
 				all = append(all, f...)
@@ -148,7 +179,7 @@ func execTime(c *child.Ctx, k timeCase, cj []byte, sigPrefix string) {
 			return
 		}
 		if m.Illegal {
-			if !k.ViaStream && g.err == nil {
+			if !k.ViaStream && !(k.Split > 0 && (i < k.Split || !k.RestFrames)) && g.err == nil {
 				c.Violate(sigPrefix+"illegal-timestamp-not-an-error", fmt.Sprintf("message %d: %s timestamp %d is outside its legal range but no error was returned (SentAt %q)", i, cons, m.TS, g.msg.SentAt), cj)
 				return
 			}
@@ -189,6 +220,28 @@ func execTime(c *child.Ctx, k timeCase, cj []byte, sigPrefix string) {
 	}
 }
 
+// streamThrough runs one HandleMessages call of the given handler over the bytes.
+func streamThrough(h *handler.Handler, input []byte) []handler.Message {
+	in := make(chan byte, len(input)+1)
+	for _, b := range input {
+		in <- b
+	}
+	close(in)
+	out := make(chan handler.Message, 16)
+	go h.HandleMessages(in, out)
+	var msgs []handler.Message
+	done := make(chan struct{})
+	go func() {
+		for m := range out {
+			msgs = append(msgs, m)
+			tick()
+		}
+		close(done)
+	}()
+	waitOrHang(done, caseWatchdog, "stream handler did not finish")
+	return msgs
+}
+
 // genHistory builds one history, truth first.
 func genHistory(r *ref.SplitMix64, anyStartInWeek bool) (timeCase, bool) {
 	var k timeCase
@@ -208,6 +261,18 @@ func genHistory(r *ref.SplitMix64, anyStartInWeek bool) (timeCase, bool) {
 	}
 	k.StartMs = T.UnixMilli()
 	T = time.UnixMilli(k.StartMs).UTC()
+	if anyStartInWeek && r.Chance(1, 6) {
+		// start times have sub-millisecond resolution (time.Now()): the last microseconds
+		// before a rollover still belong to the old week
+		cons := ref.TimedConstellations[r.Intn(4)]
+		roll := ref.WeekStartUTC(cons, base)
+		k.StartMs = roll.UnixMilli() - 1
+		k.StartNs = r.Range(500001, 999999)
+		if r.Chance(1, 3) {
+			k.StartNs = r.Range(1, 999999)
+		}
+		T = time.UnixMilli(k.StartMs).Add(time.Duration(k.StartNs)).UTC()
+	}
 
 	// which constellations take part
 	var cons []string
@@ -256,6 +321,9 @@ func genHistory(r *ref.SplitMix64, anyStartInWeek bool) (timeCase, bool) {
 		} else {
 			// C06: u1 >= T and in T's week
 			room := we.Sub(T).Milliseconds()
+			if room < 1 {
+				room = 1
+			}
 			switch r.Intn(5) {
 			case 0:
 				u = T
@@ -384,6 +452,11 @@ func genHistory(r *ref.SplitMix64, anyStartInWeek bool) (timeCase, bool) {
 		}
 		idx[j]++
 		remaining--
+	}
+	if len(k.Msgs) >= 4 && r.Chance(1, 4) {
+		k.Split = r.Range(1, len(k.Msgs)-1)
+		k.RestFrames = r.Chance(1, 2)
+		k.ViaStream = false
 	}
 	multi := 0
 	for _, n := range rollovers {
